@@ -353,12 +353,28 @@ def _s5_eval_environment(program, model, res):
                         f"printed source of such a pipeline raises NameError instead of rebuilding it")
 
 
+def _eval_flag(cond, flag: str, value: bool):
+    """three-valued evaluation of a condition in which only `flag` is known"""
+    if isinstance(cond, ast.Name):
+        return value if cond.id == flag else None
+    if isinstance(cond, ast.UnaryOp) and isinstance(cond.op, ast.Not):
+        v = _eval_flag(cond.operand, flag, value)
+        return None if v is None else (not v)
+    if isinstance(cond, ast.BoolOp):
+        vals = [_eval_flag(v, flag, value) for v in cond.values]
+        if isinstance(cond.op, ast.And):
+            return False if any(v is False for v in vals) else (True if all(v is True for v in vals) else None)
+        return True if any(v is True for v in vals) else (False if all(v is False for v in vals) else None)
+    return None
+
+
 def _s2(program, res):
     tp = program.method("expr_rep", "Expression", "to_python", inherited=False)
     res.analysed(tp)
     g = cfgmod.build(tp.node)
     npaths = 0
     bad = {}
+    unwrapped = {}
     for path in g.paths(limit=20000):
         if len(path) < 2 or g.nodes[path[-2][0]].kind != "return":
             continue
@@ -375,17 +391,39 @@ def _s2(program, res):
                     tested = True
         if inline_true:
             npaths += 1
+            ret = g.nodes[path[-2][0]]
             if not tested:
-                ret = g.nodes[path[-2][0]]
                 bad[ret.line] = ret
+            else:
+                # with want_inline_parens=True the inline text has to come back wrapped: a path that is feasible under that assumption
+                # (every test mentioning the flag can take the branch the path took) must return "(" + ... + ")"
+                feasible = True
+                for (nid, label) in path[:-1]:
+                    n = g.nodes[nid]
+                    if n.kind == "test" and isinstance(label, bool) and "want_inline_parens" in {x.id for x in ast.walk(n.cond) if isinstance(x, ast.Name)}:
+                        v = _eval_flag(n.cond, "want_inline_parens", True)
+                        if v is not None and v != label:
+                            feasible = False
+                if feasible:
+                    rv = ret.stmt.value
+                    txt_arg = rv.args[0] if isinstance(rv, ast.Call) and dotted_name(rv.func) == "PythonText" and rv.args else rv
+                    ops_ = add_operands(txt_arg)
+                    wrapped = len(ops_) >= 3 and isinstance(ops_[0], ast.Constant) and str(ops_[0].value).startswith("(") \
+                        and isinstance(ops_[-1], ast.Constant) and str(ops_[-1].value).endswith(")")
+                    if not wrapped:
+                        unwrapped[ret.line] = ret
     if npaths == 0:
         raise AnalysisError("Expression.to_python: no path tests self.inline")
     for line, ret in bad.items():
         res.fail_at("C12-S2", tp, "inline-return-ignores-want_inline_parens",
                     f"a path with self.inline true returns `{unparse(ret.stmt.value)[:80]}` without testing want_inline_parens: "
                     f"an inline sub-expression is printed without grouping parentheses", ret.stmt)
-    if not bad:
-        res.ok("C12-S2", f"all {npaths} inline paths of Expression.to_python test want_inline_parens")
+    for line, ret in unwrapped.items():
+        res.fail_at("C12-S2", tp, "inline-text-unwrapped-although-parens-wanted",
+                    f"with want_inline_parens=True an inline form can still return `{unparse(ret.stmt.value)[:80]}` (the wrapping depends on a further condition): "
+                    f"a unary minus printed bare inside a tighter-binding operator regroups — (-x) ** 2 prints as -x ** 2, which reads back as -(x ** 2)", ret.stmt)
+    if not bad and not unwrapped:
+        res.ok("C12-S2", f"all {npaths} inline paths of Expression.to_python test want_inline_parens and return wrapped text when it is set")
     # operands of inline n-ary forms are printed with want_inline_parens=True
     n_calls = 0
     for st in ast.walk(tp.node):
